@@ -141,14 +141,24 @@ func (g *genState) next(p *scriptProfile) {
 		cls := "honest"
 		seq := g.nextSeq
 		g.nextSeq++
-		switch rng.Intn(10) {
+		switch rng.Intn(12) {
 		case 0:
 			cls, seq = "honest-seq0", 0
 		case 1:
 			// replayed / altered sequence number (not covered by the signature)
 			seq = uint64(rng.Intn(3))
+		case 2:
+			cls = "honest-sha256"
 		}
-		m := r.tab.craft(cls, g.body(), seq, 0)
+		enc := encoding{}
+		if rng.Intn(3) == 0 {
+			// honest content in the other encodings the wire format allows
+			enc = encoding{att: attChoices[rng.Intn(len(attChoices))], extra: rng.Intn(2) == 0}
+		}
+		m := r.tab.craft(cls, g.body(), seq, rng.Intn(512), enc)
+		if sy := r.tab.lookup(m); sy != nil {
+			cls = sy.class
+		}
 		r.apply(&sop{kind: "resp", resp: rRecv(m), note: cls})
 		g.class("resp:recv-" + cls)
 	case pick(p.wRecvBad):
@@ -156,12 +166,15 @@ func (g *genState) next(p *scriptProfile) {
 			return
 		}
 		cls := badClasses[rng.Intn(len(badClasses))]
-		m := r.tab.craft(cls, g.body(), g.nextSeq, rng.Intn(512))
+		// every forged class in every encoding of the signature object
+		enc := encoding{att: attChoices[rng.Intn(len(attChoices))], extra: rng.Intn(4) == 0}
+		m := r.tab.craft(cls, g.body(), g.nextSeq, rng.Intn(512), enc)
+		cls = r.tab.lookup(m).class
 		g.nextSeq++
 		o := &sop{kind: "resp", resp: rRecv(m), note: cls}
 		// a later honest message on the same stream must not be processed
 		if rng.Intn(2) == 0 {
-			m2 := r.tab.craft("honest", g.body(), g.nextSeq, 0)
+			m2 := r.tab.craft("honest", g.body(), g.nextSeq, 0, encoding{})
 			g.nextSeq++
 			o.extra = rRecv(m2)
 			g.class("resp:honest-queued-after-bad")
@@ -280,6 +293,9 @@ func (g *genState) next(p *scriptProfile) {
 
 // runScripts generates n scripts with the given profile, emits them as
 // correspondence cases and calls check on each finished script.
+// preScript, if set, runs targeted operations at the start of script i.
+var preScript func(g *genState, i int)
+
 func runScripts(c *hx.Ctx, n int, p *scriptProfile, fixed [][]*sop, wrap bool, check func(g *genState, desc map[string]any)) {
 	prev := runtime.GOMAXPROCS(1)
 	defer runtime.GOMAXPROCS(prev)
@@ -293,6 +309,9 @@ func runScripts(c *hx.Ctx, n int, p *scriptProfile, fixed [][]*sop, wrap bool, c
 			}
 			g.class("fixed-script")
 		} else {
+			if preScript != nil {
+				preScript(g, i-len(fixed))
+			}
 			steps := 6 + c.Rng.Intn(12)
 			for k := 0; k < steps; k++ {
 				g.next(p)
